@@ -7,6 +7,7 @@ Not carried by a theorem: panics inside the external libraries on arbitrary byte
 -/
 import Vuego.Props.C17
 import Vuego.Lemmas.EvalInv
+import Vuego.Lemmas.NoCrashEval
 namespace Vuego.Props.C11
 open Go Vuego
 
@@ -36,5 +37,42 @@ theorem stack_depth_bounded (W : World) (f : Nat) (ctx : Ctx) (st st' : St) (nod
 theorem resolve_never_panics (cur : Val) (ps : List Str) (hps : ∀ p ∈ ps, p ≠ []) (site : String) :
     walkPath goodCfg cur ps ≠ .panic site := by
   rw [Vuego.Props.C17.walkPath_eq_goWalk cur ps hps]; intro h; cases h
+
+/-! ### no crash outcome of the whole evaluator model
+
+`.panic` and `.hang` are the model's crash outcomes (a Go panic of the reflect-based resolver, a loop without exit). With the reflect
+guards the SOURCE has (`Generated.reflectCfg`, re-read on every run) and any expression evaluator that itself returns normally, no
+template, data stack, file set, slot content or fuel makes any evaluator function return one of them: every render of the model ends in
+output, an ordinary error, or the model's own step bound. -/
+
+/-- the configuration read from the source satisfies the guards the proof needs -/
+theorem source_cfg_guards : GoodCfg Generated.reflectCfg := ⟨by decide, by decide⟩
+
+theorem evaluator_never_crashes (W : World) (hcfg : W.P.cfg = Generated.reflectCfg) (hexpr : ∀ e env, Safe (W.P.exprEval e env))
+    (fuel : Nat) (file : Str) (dom : List Node) (stack : Stack) (site : String) :
+    evaluatePage W fuel file dom stack ≠ .panic site ∧ evaluatePage W fuel file dom stack ≠ .hang site := by
+  have g : GoodParams W.P := ⟨hcfg ▸ source_cfg_guards, hexpr⟩
+  have h := (safeAt_all W g fuel).list { slots := [], chain := [file] } { stack := stack, seen := [] } (resolveTagsList W.comps dom)
+  unfold evaluatePage
+  constructor <;> intro hc <;> rw [hc] at h <;> cases h
+
+/-- the same for the pieces a render is made of: interpolation, conditions, bound attributes, the pipe interpreter -/
+theorem pieces_never_crash (P : Params) (hcfg : P.cfg = Generated.reflectCfg) (hexpr : ∀ e env, Safe (P.exprEval e env)) (s : Stack) (e a : Str) :
+    Safe (interpolate P s e) ∧ Safe (evalCondition P s e) ∧ Safe (evalBoundAttribute P s a e) ∧ Safe (evalPipe P s (parsePipeExpr e)) := by
+  have g : GoodParams P := ⟨hcfg ▸ source_cfg_guards, hexpr⟩
+  exact ⟨safe_interpolate P g s e, safe_evalCondition P g s e, safe_evalBoundAttribute P g s a e, safe_evalPipe P g s _⟩
+
+/-- the hypothesis on the reflect guards is needed: without the exported-field check a path through an unexported field panics (the
+    pinned tree did; fix `c3dcf50`) -/
+theorem unguarded_cfg_crashes :
+    (Stack.resolve { Generated.reflectCfg with checksExported := false } { root := .strct [(['s'], [], false, .str ['x'])], scopes := [[]] } ['s']).crash = true := by
+  decide
+
+/-- non-vacuity: ExprMini, the stand-in for expr-lang used by the correspondence, never crashes on the sample below, and a page with a
+    loop, a chain, an include-free template and a pipe evaluates to output under the theorem's hypotheses -/
+example : (evaluatePage { P := { exprEval := fun _ _ => .err "expr" [], cfg := Generated.reflectCfg }, files := [], comps := [], jsonDecode := fun _ => none } 50 (S "p")
+    [.elem (S "p") [(S "v-for", S "x in xs")] [.text (S "{{ x | upper }}")]]
+    { root := .nil, scopes := [[(S "xs", .list false [.str (S "a")])]] }).crash = false := by
+  decide
 
 end Vuego.Props.C11
